@@ -293,6 +293,52 @@ example :
 example : seenKeys [.prim .str] (callSeen constsV2 env roots plainCfg collGet ⟨[.str []], none, .none⟩) =
     some [[39, 39]] := by decide +kernel
 
-example : nodeFor roots detailSegs = some (.mk "detail" false [.get, .delete] [] [] []) := by decide +kernel
+example : (nodeFor roots detailSegs).map Routing.Node.methods = some [.get, .delete] := by decide +kernel
+
+/-! every hypothesis of `c02_call_reaches_method` at once, on a tunnelled finder call under a context
+path: the theorem applies and yields the invocation -/
+
+def collFind : ResSpec := ⟨collSegs, some "Inner", ⟨.finder, sB "byName", false, none, some (.ref "Inner"), none, false⟩⟩
+def collNode : Routing.Node := (nodeFor roots collSegs).getD (.mk "" false [] [] [] [])
+theorem collNode_is : nodeFor roots collSegs = some collNode := by
+  have h : (nodeFor roots collSegs).isSome = true := by decide +kernel
+  unfold collNode
+  cases hn : nodeFor roots collSegs with
+  | none => rw [hn] at h; cases h
+  | some n => rfl
+def okOr {α : Type} [Inhabited α] : Url.Res α → α
+  | .ok a => a
+  | _ => default
+instance : Inhabited Url.URL := ⟨{}⟩
+def findPairs : List (Bytes × Bytes) := [(sB "q", sB "byName")]
+def findHost : Url.URL := okOr (Url.parse (baseUrlText (ctxCfg 1)))
+def findUrl : Url.URL := okOr (HttpUrl.requestUrl findHost (sB "coll") (sB "/coll") (some (joinQuery findPairs)))
+
+example : ∃ a sent, clientEncode constsV2 env collFind ⟨[], none, .none⟩ = some a ∧
+    wireRequest constsV2 (ctxCfg 1) a = .ok sent ∧
+    serverSees constsV2 env roots (ctxCfg 1) collFind sent = .invoked ⟨[], none, .none⟩ :=
+  c02_call_reaches_method constsV2 c02_constants_ok_v2 env roots (ctxCfg 1) collFind ⟨[], none, .none⟩ collNode
+    collNode_is [] (by rfl) (some findPairs) (by decide +kernel) none (by rfl)
+    (by decide +kernel) (by intro t ht; cases ht) (by decide +kernel)
+    { known := by decide
+      needs := by decide +kernel
+      forbids := by decide +kernel
+      simple := by decide +kernel
+      finder := by decide +kernel
+      action := by decide +kernel
+      plain := by decide +kernel }
+    (by decide +kernel) findUrl
+    { parsed := ⟨findHost, by decide +kernel, by decide +kernel⟩
+      path := by decide +kernel
+      rawQuery := by decide +kernel }
+    ⟨by decide +kernel, by decide +kernel⟩ ⟨by decide +kernel, by decide +kernel⟩ (by decide)
+    ⟨[], none, .none⟩ (by rfl)
+
+/-- …and that request really was tunnelled: a POST without URL query -/
+example : (match clientEncode constsV2 env collFind ⟨[], none, .none⟩ with
+    | some a => (match wireRequest constsV2 (ctxCfg 1) a with
+      | .ok s => (s.method, s.rawQuery, s.path)
+      | _ => ([], [1], []))
+    | none => ([], [2], [])) = (sB "POST", [], sB "/ctx/api%20v1/coll") := by decide +kernel
 
 end Restli.E2E
